@@ -148,6 +148,10 @@ def obsLoop (s : Smp) : Smp :=
   let s := if s.flg &&& FLOOP = 0 then { s with lps := 0, lpe := 0 } else s
   if s.flg &&& FSLOOP = 0 then { s with sus := 0, sue := 0 } else s
 
+/-- `libxmp_prepare_scan`: when no order entry names a stored pattern the length becomes 0 -/
+def fixOrders (pat : Nat) (ords : Bytes) : Bytes :=
+  if ords.all (fun o => decide (o.toNat ≥ pat)) then [] else ords
+
 end Xmp.Fmt
 
 namespace Xmp.Fmt.Mod
@@ -386,7 +390,7 @@ def read (bs : Bytes) : Option Module := do
   let smps0 := hdrs.map hdrSmp
   if ptsong ∧ smps0.any (·.len > 0) then none
   let smps ← decSmps smps0 r
-  some { name := adjustString (cstr name), chn := chn, orders := ords.take len, pats := pats,
+  some { name := adjustString (cstr name), chn := chn, orders := fixOrders pat (ords.take len), pats := pats,
          ins := (List.range 31).zipWith hdrIns hdrs, smps := smps.map obsLoop, spd := 6, bpm := 125 }
 
 /-! ## well-formed MOD songs (the domain of the round-trip theorem) -/
@@ -462,12 +466,13 @@ structure WellFormed (s : Module) (o : Opts) : Prop where
   slots : SlotsOk 0 s.ins s.smps
   spd : s.spd = 6
   bpm : s.bpm = 125
+  oplay : ∀ x ∈ s.orders, x.toNat < s.pats.length
 
 instance (s : Module) (o : Opts) : Decidable (WellFormed s o) :=
   decidable_of_iff (NameOk 20 s.name ∧ (1 ≤ s.chn ∧ s.chn ≤ 32) ∧ o.kind < 4 ∧ s.orders.length ≤ 128 ∧
       patCount (padTo 128 s.orders) 0 = s.pats.length ∧ (∀ p ∈ s.pats, PatOk s.chn p) ∧ s.ins.length = 31 ∧
-      SlotsOk 0 s.ins s.smps ∧ s.spd = 6 ∧ s.bpm = 125)
-    ⟨fun ⟨a, b, c, d, e, f, g, h, i, j⟩ => ⟨a, b, c, d, e, f, g, h, i, j⟩,
-     fun ⟨a, b, c, d, e, f, g, h, i, j⟩ => ⟨a, b, c, d, e, f, g, h, i, j⟩⟩
+      SlotsOk 0 s.ins s.smps ∧ s.spd = 6 ∧ s.bpm = 125 ∧ ∀ x ∈ s.orders, x.toNat < s.pats.length)
+    ⟨fun ⟨a, b, c, d, e, f, g, h, i, j, k⟩ => ⟨a, b, c, d, e, f, g, h, i, j, k⟩,
+     fun ⟨a, b, c, d, e, f, g, h, i, j, k⟩ => ⟨a, b, c, d, e, f, g, h, i, j, k⟩⟩
 
 end Xmp.Fmt.Mod
